@@ -501,6 +501,17 @@ def b_native(B):
                 for n in sorted({n_ for n_ in (0, 1, chunk - 1, chunk, ns - 1, -1, -ns) if -ns <= n_ < ns}):       # valid integer indices only
                     if not np.array_equal(a[n, :], c[n, :]) or not np.array_equal(a[n, 5], c[n, 5]):
                         bad.append(("int", n))
+                # the same integer held in a NumPy scalar (an index taken from an array of spike times, say), alone and with a channel selector
+                for n in (0, chunk - 1, chunk, ns - 1, -1):
+                    for ty in (np.int64, np.int32, np.intp):
+                        try:
+                            r_a, r_c = a[ty(n)], c[ty(n)]
+                            r_a2, r_c2 = a[ty(n), 3:9], c[ty(n), 3:9]
+                        except Exception as e:
+                            bad.append(("numpy int", ty.__name__, n, repr(e)[:60]))
+                            continue
+                        if np.shape(r_a) != np.shape(r_c) or not np.array_equal(r_a, r_c) or np.shape(r_a2) != np.shape(r_c2) or not np.array_equal(r_a2, r_c2):
+                            bad.append(("numpy int", ty.__name__, n, "bin", np.shape(r_a), "cbin", np.shape(r_c)))
                 for cs in (slice(None), slice(3, 40, 5), [0, 7, 384], slice(None, None, -1)):
                     if not np.array_equal(a[10:chunk + 10, cs], c[10:chunk + 10, cs]):
                         bad.append(("csel", repr(cs)))
